@@ -2,96 +2,11 @@
 use proptest::prelude::*;
 use pv::reference::spaces as rf;
 use pv::reference::spaces::{Tf, V3};
+use pv::refgraph::{parse, Sp, K};
 use pv::runner::{Harness, Obs, PropResult};
 use pv::types::{conversions, embed_dist, nominal_box, space_info, Conv, SpaceInfo, SPACE_NAMES};
 use pv::ensure;
 use serde::{Deserialize, Serialize};
-
-#[derive(Clone, Copy, PartialEq, Debug)]
-enum K {
-    Rgb,
-    Xyz,
-    Yxy,
-    Lab,
-    Lch,
-    Luv,
-    Lchuv,
-    Hsluv,
-    Hsl,
-    Hsv,
-    Hwb,
-    Oklab,
-    Oklch,
-    Okhsl,
-    Okhsv,
-    Okhwb,
-    Lms,
-    Luma,
-}
-#[derive(Clone, Copy, Debug)]
-struct Sp {
-    k: K,
-    /// RGB standard (Rgb, Hsl, Hsv, Hwb, Luma)
-    std: Option<rf::RgbStd>,
-    /// transfer function actually applied (Linear for the Lin* forms)
-    tf: Tf,
-    wp: V3,
-    cone: rf::M3,
-}
-fn parse(name: &str) -> Sp {
-    let (base, param) = match name.split_once('<') {
-        Some((b, p)) => (b, Some(p.trim_end_matches('>'))),
-        None => (name, None),
-    };
-    let rgb = |n: &str| -> Option<(rf::RgbStd, Tf)> {
-        let (lin, n) = match n.strip_prefix("Lin") {
-            Some(r) => (true, r),
-            None => (false, n),
-        };
-        let s = rf::STANDARDS.iter().find(|s| s.name == n)?;
-        Some((*s, if lin { Tf::Linear } else { s.tf }))
-    };
-    let white = |p: Option<&str>| match p {
-        None => rf::D65,
-        Some("DciWhite") => rf::white("DciP3"),
-        Some(w) => rf::white(w),
-    };
-    if let Some((s, tf)) = rgb(base) {
-        return Sp { k: K::Rgb, std: Some(s), tf, wp: rf::white(s.white), cone: rf::UNIT };
-    }
-    let k = match base {
-        "Xyz" => K::Xyz,
-        "Yxy" => K::Yxy,
-        "Lab" => K::Lab,
-        "Lch" => K::Lch,
-        "Luv" => K::Luv,
-        "Lchuv" => K::Lchuv,
-        "Hsluv" => K::Hsluv,
-        "Hsl" => K::Hsl,
-        "Hsv" => K::Hsv,
-        "Hwb" => K::Hwb,
-        "Oklab" => K::Oklab,
-        "Oklch" => K::Oklch,
-        "Okhsl" => K::Okhsl,
-        "Okhsv" => K::Okhsv,
-        "Okhwb" => K::Okhwb,
-        "Lms" => K::Lms,
-        "Luma" | "LinLuma" => K::Luma,
-        _ => panic!("unknown space {}", name),
-    };
-    match k {
-        K::Hsl | K::Hsv | K::Hwb => {
-            let (s, tf) = rgb(param.unwrap_or("Srgb")).unwrap();
-            Sp { k, std: Some(s), tf, wp: rf::white(s.white), cone: rf::UNIT }
-        }
-        K::Luma => {
-            let s = rf::standard("Srgb");
-            Sp { k, std: Some(s), tf: if base == "LinLuma" { Tf::Linear } else { Tf::Srgb }, wp: rf::D65, cone: rf::UNIT }
-        }
-        K::Lms => Sp { k, std: None, tf: Tf::Linear, wp: rf::D65, cone: if param == Some("Bradford") { rf::BRADFORD } else { rf::VON_KRIES } },
-        _ => Sp { k, std: None, tf: Tf::Linear, wp: white(param), cone: rf::UNIT },
-    }
-}
 
 /// accuracy class of a direct conversion
 #[derive(Clone, Copy, PartialEq, Debug)]
@@ -299,23 +214,6 @@ fn definition(a: &Sp, b: &Sp, x: V3) -> Option<Want> {
     }
 }
 
-/// reference path from XYZ (relative to the space's own white) into the space: only used to *generate* real colours
-fn from_xyz(sp: &Sp, xyz: V3) -> V3 {
-    use K::*;
-    match sp.k {
-        Xyz => xyz,
-        Yxy => rf::xyz_to_yxy(xyz, sp.wp),
-        Lab => rf::xyz_to_lab(xyz, sp.wp),
-        Lch => rf::lab_to_lch(rf::xyz_to_lab(xyz, sp.wp)),
-        Luv => rf::xyz_to_luv(xyz, sp.wp),
-        Lchuv => rf::lab_to_lch(rf::xyz_to_luv(xyz, sp.wp)),
-        Oklab => rf::xyz_to_oklab(xyz),
-        Oklch => rf::lab_to_lch(rf::xyz_to_oklab(xyz)),
-        Lms => rf::mul(&sp.cone, xyz),
-        _ => unreachable!(),
-    }
-}
-
 #[derive(Debug, Clone, Serialize, Deserialize)]
 struct Case {
     /// index into conversions()
@@ -508,7 +406,7 @@ fn source(a: Sp, info: SpaceInfo) -> BoxedStrategy<V3> {
                     let w = rf::white(st.white);
                     let xyz = rf::rgb_to_xyz(&st, c);
                     let wp = if a.k == Oklab || a.k == Oklch { rf::D65 } else { a.wp };
-                    from_xyz(&a, [xyz[0] * wp[0] / w[0], xyz[1], xyz[2] * wp[2] / w[2]])
+                    pv::refgraph::from_xyz(&a, [xyz[0] * wp[0] / w[0], xyz[1], xyz[2] * wp[2] / w[2]])
                 })
                 .boxed();
             prop_oneof![7 => real, 2 => nominal_box(info)].boxed()
